@@ -71,6 +71,7 @@ class Rig:
         self.log = []           # event log of the current step
         self.imp_calls = []     # imputer calls of the current step
         self.steps = []         # per-step records
+        self.model_log = []     # every model evaluation in order: (x, out)
         self.coef = [Q(rng.randint(-3, 3), rng.randint(1, 3)) for _ in range(d + 2)]
         self.pair = {(i, j): Q(rng.randint(-2, 2), rng.randint(1, 2)) for i in range(d) for j in range(i + 1, d)}
         self.coef2 = [Q(rng.randint(-3, 3), rng.randint(1, 3)) for _ in range(d + 2)]
@@ -138,6 +139,7 @@ class Rig:
     def _record_model(self, x, out):
         key = tuple(rs(v) for v in self.xlist(x))
         self.model_table[key] = self.cdict(out)
+        self.model_log.append((list(key), self.cdict(out)))
 
     def cdict(self, d):
         """canonical protocol form of an output dict: sorted list of [label id, 'p/q']"""
@@ -180,6 +182,7 @@ class Rig:
         from ixai.explainer import IncrementalPFI, IncrementalSage
         from ixai.explainer.sage import BatchSage, IntervalSage
         from ixai.imputer import MarginalImputer, DefaultImputer
+        from ixai.storage import IntervalStorage
         with warnings.catch_warnings():
             warnings.simplefilter("ignore")
             d0 = hrng.Scripted(pyrandom.Random(self.rng.randrange(10 ** 9)),
@@ -231,13 +234,16 @@ class Rig:
             if n_samples is not None:
                 kwargs["n_samples"] = n_samples
             draws_before = len(rig.draws.log) if rig.draws is not None else 0
-            preds = orig(feature_subset=feature_subset, x_i=x_i, **kwargs)
-            rows = []
-            if rig.draws is not None:
-                rows = [v for k, _, v in rig.draws.log[draws_before:] if k == "index"]
-            rig.imp_calls.append({"subset": subset_copy, "n": n_samples, "preds": [rig.cdict(p) for p in preds],
-                                  "entry": entry, "rows": rows, "raw_subset_type": type(feature_subset).__name__})
-            return preds
+            rec = {"subset": subset_copy, "n": n_samples, "preds": None, "entry": entry, "rows": [],
+                   "raw_subset_type": type(feature_subset).__name__}
+            rig.imp_calls.append(rec)
+            try:
+                preds = orig(feature_subset=feature_subset, x_i=x_i, **kwargs)
+                rec["preds"] = [rig.cdict(p) for p in preds]
+                return preds
+            finally:
+                if rig.draws is not None:
+                    rec["rows"] = [v for k, _, v in rig.draws.log[draws_before:] if k == "index"]
         imp.impute = impute
 
     def _wrap_storage(self):
@@ -344,6 +350,8 @@ class Rig:
         remaining = list(range(self.d))
         perm = []
         for c in self.imp_calls:
+            if c["preds"] is None:
+                break
             gone = [f for f in remaining if f not in c["subset"]]
             if len(gone) != 1 or any(f not in remaining for f in c["subset"]):
                 return None
@@ -358,7 +366,7 @@ class Rig:
                 "loss": [[y, cp, v] for (y, cp, v) in self.loss_table.values()]}
 
     def imp_table(self, rec):
-        return [[c["subset"], c["preds"]] for c in rec["imp_calls"]]
+        return [[c["subset"], c["preds"]] for c in rec["imp_calls"] if c["preds"] is not None]
 
     def pure_request(self):
         """request for `pfi_run` / `sage_run` over the recorded steps (steps that raised are not included)"""
@@ -371,6 +379,23 @@ class Rig:
         req = {"op": "sage_run" if self.kind == "sage" else "pfi_run",
                "alpha": (rs(self.effective_alpha()) if self.dynamic else None),
                "names": list(range(self.d)), "lbb": self.lbb, "steps": steps}
+        req.update(self.tables())
+        return req
+
+    def eff_request(self, fail=()):
+        """request for `pfi_eff` / `sage_eff`: library MarginalImputer(joint); faults by global invocation number"""
+        steps = []
+        for rec in self.steps:
+            s = {"x": rec["x"], "y": rec["y"], "update_storage": rec["kw"].get("update_storage", True),
+                 "rows": rec["rows_before"], "row_choices": [c["rows"] for c in rec["imp_calls"]],
+                 "impute_entry_calls": [c["entry"] for c in rec["imp_calls"]]}
+            if self.kind == "sage":
+                drawn = rec["perm_drawn"][-1] if rec["perm_drawn"] else None
+                s["perm"] = drawn if drawn is not None else (rec["perm"] or [])
+            steps.append(s)
+        req = {"op": "sage_eff" if self.kind == "sage" else "pfi_eff",
+               "alpha": (rs(self.effective_alpha()) if self.dynamic else None), "names": list(range(self.d)),
+               "n": self.n_inner, "steps": steps, "fail_model": list(fail), "fail_loss": list(fail), "fail_storage": list(fail)}
         req.update(self.tables())
         return req
 
